@@ -4,7 +4,8 @@
    (pushes with duplicates, Clear, events connected from outside) under limits limN/limS and
    arbitrary Check/Process failure oracles fc/fp (which may depend on the whole log so far). *)
 From Coq Require Import NArith List.
-From LV Require Import model.Buffer spec.BufferSpec proofs.BufferInv proofs.BufferTheorems proofs.BufferOld.
+From LV Require Import model.Buffer spec.BufferSpec proofs.BufferInv proofs.BufferTheorems proofs.BufferOld
+  proofs.BufferComplete2.
 Import ListNotations.
 Local Open Scope N_scope.
 
@@ -49,6 +50,46 @@ Proof. exact T4_push_reports_total. Qed.
 Theorem C14_fuel_suffices : forall fc fp limN limS ops, oof (final fc fp limN limS ops) = false.
 Proof. exact fuel_suffices. Qed.
 
+(* T5 completeness: the limits cannot bind, Check/Process never fail, the pushed events are
+   distinct and form a parents-closed DAG (a rank decreasing along parent edges exists).  Then for
+   EVERY push order every event is processed and the buffer ends empty. *)
+Theorem C14_T5_complete : forall fc fp, (forall l x, fc l x = false /\ fp l x = false) ->
+  forall limN limS pushes (rank : N -> nat),
+    let ops := push_ops pushes in
+    let cs := copies_of ops in
+    NoDup (map eid cs) -> total_num cs <= limN -> total_size cs <= limS ->
+    (forall x, In x cs -> forall p, In p (pars x) ->
+               (exists y, In y cs /\ eid y = p) /\ (rank p < rank (eid x))%nat) ->
+    (forall x, In x cs -> exists c, In (OProcess c (eid x) true) (hist fc fp limN limS ops))
+    /\ inc (final fc fp limN limS ops) = [].
+Proof. exact T5_complete. Qed.
+
+(* non-vacuity of T5's hypotheses: the diamond 1 <- 2,3 <- 4 pushed children first, limits exactly
+   sufficient, rank = event id *)
+Definition c14_t5_ex : list (N * list N * N) := [(4, [2; 3], 4); (3, [1], 3); (2, [1], 2); (1, [], 1)].
+Example C14_T5_nonvacuous :
+  let cs := copies_of (push_ops c14_t5_ex) in
+  NoDup (map eid cs) /\ total_num cs <= 4 /\ total_size cs <= 10 /\
+  (forall x, In x cs -> forall p, In p (pars x) ->
+             (exists y, In y cs /\ eid y = p) /\ (N.to_nat p < N.to_nat (eid x))%nat) /\
+  hist (fun _ _ => false) (fun _ _ => false) 4 10 (push_ops c14_t5_ex) =
+  [ OPushed 0 false 1 4; OPushed 1 false 2 7; OPushed 2 false 3 9;
+    OCheck 3 1 true; OProcess 3 1 true; OReleased 3 1 0;
+    OCheck 1 3 true; OProcess 1 3 true; OReleased 1 3 0;
+    OCheck 2 2 true; OProcess 2 2 true; OReleased 2 2 0;
+    OCheck 0 4 true; OProcess 0 4 true; OReleased 0 4 0; OPushed 3 true 0 0 ].
+Proof.
+  cbv zeta. split; [|split; [|split; [|split]]].
+  - vm_compute. repeat (constructor; [simpl; intuition discriminate|]). constructor.
+  - vm_compute. discriminate.
+  - vm_compute. discriminate.
+  - intros x Hx p Hp. vm_compute in Hx.
+    repeat (destruct Hx as [Hx|Hx]; [subst x; simpl in Hp;
+      repeat (destruct Hp as [Hp|Hp]; [subst p; split; [vm_compute; eauto 10 | vm_compute; repeat constructor]|]);
+      try contradiction|]); contradiction.
+  - vm_compute. reflexivity.
+Qed.
+
 (* non-vacuity: a history in which the recursion runs, a Process fails inside it, a copy is a
    duplicate and one is spilled; the theorems' hypotheses (a Process in the history, a pushed
    copy) are met by it *)
@@ -79,3 +120,4 @@ Print Assumptions C14_T3_cleared_exactly_once.
 Print Assumptions C14_T4_within_limits.
 Print Assumptions C14_T4_push_reports_total.
 Print Assumptions C14_fuel_suffices.
+Print Assumptions C14_T5_complete.
